@@ -1254,9 +1254,9 @@ func (pt ProvidedType) Field() *Field {
 // bindShouldUsePointer loads the wire package the user is importing from their
 // injector. The call is a wire marker function call.
 func bindShouldUsePointer(info *types.Info, call *ast.CallExpr) bool {
-	// These type assertions should not fail, otherwise panic.
-	fun := call.Fun.(*ast.SelectorExpr)                 // wire.Bind
-	pkgName := fun.X.(*ast.Ident)                       // wire
-	wireName := info.ObjectOf(pkgName).(*types.PkgName) // wire package
-	return wireName.Imported().Scope().Lookup("bindToUsePointer") != nil
+	fnObj := qualifiedIdentObject(info, call.Fun) // wire.Bind, or Bind with a dot import
+	if fnObj == nil || fnObj.Pkg() == nil {
+		return false
+	}
+	return fnObj.Pkg().Scope().Lookup("bindToUsePointer") != nil
 }
